@@ -17,11 +17,11 @@ import (
 )
 
 type c17DagScn struct {
-	Kind   string    `json:"kind"` // "dag"
-	Upg    bool      `json:"upg"`
-	Pkgs   []c17Pkg  `json:"pkgs"`
-	Roots  []string  `json:"roots"`
-	Order  []string  `json:"order"` // map iteration order to replay in the model: Go's own Sort result when it succeeded
+	Kind  string   `json:"kind"` // "dag"
+	Upg   bool     `json:"upg"`
+	Pkgs  []c17Pkg `json:"pkgs"`
+	Roots []string `json:"roots"`
+	Order []string `json:"order"` // map iteration order to replay in the model: Go's own Sort result when it succeeded
 	// Warm: the lock contents the SAME DAG object was initialised with before (Resolve re-runs Init
 	// on its DAG after RemoveSelf); the model is per call and never sees it.
 	Warm   []c17Pkg  `json:"warm,omitempty"`
@@ -365,8 +365,8 @@ var c17NearRepos = []string{"xpkg.io/o/a", "xpkg.io/o/ab", "xpkg.io/o/a/", "xpkg
 func c17DagRandom(c *Ctx) {
 	r := c.Rng
 	s := c17DagScn{Upg: r.Bool()}
-	k := r.Range(1, 8)   // universe of package identifiers
-	m := r.Range(1, k)   // of which in the lock
+	k := r.Range(1, 8) // universe of package identifiers
+	m := r.Range(1, k) // of which in the lock
 	perm := r.Perm(k)
 	density := r.Range(1, 4)
 	c17Repos := c17Repos
